@@ -74,7 +74,8 @@ _w("C10", 30, 900,
     "a corrupted blob may still decrypt to the original message (bits outside the authenticated ciphertext): then all honored-postconditions must hold"])
 _w("C11", 25, 600,
    "each run evolves one (node credentials, node information) pair through 0-3 key rotations (all keys, only the certificate key = same secret/new key ID, or only the encryption keys), with the previous key recorded on one, both or neither side and either side possibly left behind; messages of seven library message types are encrypted by either side, held in flight across rotations, delivered in tape-chosen order, optionally corrupted (one bit, multi-byte overwrite, truncation, AEAD ciphertext cut to 0-40 bytes, arbitrary bytes, a valid blob of another pair). Receivers with blank key IDs, and deliveries decrypted into a message that still holds an earlier message of the same type. Non-trivial: every delivery that is corrupted or crosses a rotation; distinct by (direction, matches current, matches previous, rotations crossed, corruption, outcome, message type).",
-   ["expected outcome computed with crypto/ecdh and an independent key-ID computation: success iff the sender's (secret, key ID) equals the receiver's current or recorded previous one"])
+   ["expected outcome computed with crypto/ecdh and an independent key-ID computation: success iff the sender's (secret, key ID) equals the receiver's current or recorded previous one",
+    "message encryption has no seam inside and the simulated parties run one call at a time: 'never a crash' when a server decrypts for many connections AT ONCE (package-level state touched by overlapping calls, failing ones included) rests on the auxiliary free-running -race stress (bin/racestress C11; 8 s quick, 90 s thorough), which also checks facts load cannot disturb: a good ciphertext opens to exactly its message, a damaged or foreign one fails or yields the original"])
 _w("C12", 25, 600,
    "half of the runs execute every flow that writes records with storage wrappers on both sides (root rotation incl. promotion, node credential creation, authorize or token creation+use, fetch, response handling, 0-2 node credential rotations with previous keys retained on both sides) and scan every message handed to Store for every secret the harness has seen (raw and base58); the other half store one of the four record types with a tape-chosen combination of optional fields (nonce, previous key, state, bundles) and check round trip, load without / with another wrapper, and a sealed field transplanted from another record of the same type. Also: KMS outage in the wrapper's Encrypt during flows; a pooled wrapper whose encrypting key is rotated between store and load; record sets loaded by node ID with one unopenable record. Non-trivial: all; distinct by (flow sequence, back ends) and (record type, optional-field mask, transplanted field, back end).",
    ["wrappers are real go-kms-wrapping aead wrappers (honour associated data)",
